@@ -2580,11 +2580,22 @@ where
 {
     match **typ {
         Type::Record(_) => {
+            // Only a closed row of the fields `_0`, `_1`, .. reads back as the same type when it is
+            // written as a tuple (`(a | r)` is not type syntax and `(a)` is just `a`)
+            let mut fields = row_iter(typ);
+            let mut len = 0;
             type_field_iter(typ).next().is_none()
-                && row_iter(typ).enumerate().all(|(i, field)| {
-                    let name = field.name.as_ref();
-                    name.starts_with('_') && name[1..].parse() == Ok(i)
+                && fields.by_ref().all(|field| {
+                    let name: &str = field.name.as_ref();
+                    let is_index = name.strip_prefix('_') == Some(&len.to_string()[..]);
+                    len += 1;
+                    is_index
                 })
+                && len != 1
+                && match **fields.current_type() {
+                    Type::EmptyRow => true,
+                    _ => false,
+                }
         }
         _ => false,
     }
